@@ -1188,11 +1188,12 @@ impl<T: RadixSortable> AdvancedRadixSort<T> {
     /// Insertion sort for small datasets
     fn insertion_sort(&mut self, data: &mut [T]) -> Result<()> {
         for i in 1..data.len() {
+            // Compare with `Ord`: `extract_key()` is only a 64-bit prefix for
+            // variable-length types such as `RadixString`.
             let key = data[i].clone();
-            let key_value = key.extract_key();
             let mut j = i;
             
-            while j > 0 && data[j - 1].extract_key() > key_value {
+            while j > 0 && data[j - 1] > key {
                 data[j] = data[j - 1].clone();
                 j -= 1;
             }
@@ -1208,7 +1209,8 @@ impl<T: RadixSortable> AdvancedRadixSort<T> {
     fn tim_sort(&mut self, data: &mut [T]) -> Result<()> {
         // This is a simplified version - a full Tim sort implementation would be much more complex
         // For now, we use the standard library's unstable_sort which is based on pattern-defeating quicksort
-        data.sort_unstable_by_key(|item| item.extract_key());
+        // Ordered by `Ord`, not by `extract_key()` (a 64-bit prefix for variable-length types)
+        data.sort_unstable();
         
         self.stats.basic_stats.used_parallel = false;
         self.stats.basic_stats.used_simd = false;
@@ -1299,6 +1301,22 @@ impl<T: RadixSortable> AdvancedRadixSort<T> {
 
             // Copy back to original array
             data.copy_from_slice(&buffer);
+        }
+
+        // The passes ordered the data by the 64-bit key. For variable-length types the key
+        // is only a prefix, so runs of equal keys are finished with the full `Ord`
+        // comparison (a single linear scan for integer types, where equal keys are equal).
+        let mut run_start = 0;
+        while run_start < data.len() {
+            let run_key = data[run_start].extract_key();
+            let mut run_end = run_start + 1;
+            while run_end < data.len() && data[run_end].extract_key() == run_key {
+                run_end += 1;
+            }
+            if run_end - run_start > 1 {
+                data[run_start..run_end].sort_unstable();
+            }
+            run_start = run_end;
         }
 
         self.stats.basic_stats.used_parallel = false;
